@@ -1,0 +1,1 @@
+//! Verification hooks: server (see verif/mod.rs).
